@@ -401,6 +401,8 @@ class McmcSim:
                 if rec.hr_true is not None and math.isnan(rec.hr_true) and not math.isnan(rec.hr):
                     rec.hr_true = None  # reference undefined (e.g. overflowed momentum): no comparison
                 rec.notes.update(notes)
+                if "gmrf_reference_unstable" in notes:
+                    self.probe("gmrf_reference_unstable")
 
     def on_coin(self, shape):
         import torch
